@@ -1211,9 +1211,9 @@ func (g *jgen) tplRandom(maxSubs int) *jScenario {
 
 func genJoe(c *Ctx) {
 	g := &jgen{c: c, r: c.R}
-	mult, maxSubs := 2, 4 // quick: 896 scenarios, about 6 s
+	mult, maxSubs := 2, 4 // quick: 976 scenarios, about 7 s
 	if c.Thorough {
-		mult, maxSubs = 20, 8 // thorough: 8960 scenarios, about 100 s
+		mult, maxSubs = 20, 8 // thorough: 9760 scenarios, about 100 s
 	}
 	for n := 0; n < 60*mult; n++ {
 		g.emit("joe", "topics", g.tplTopics(maxSubs))
